@@ -784,7 +784,7 @@ pub fn gen_lzip(rng: &mut Rng, i: usize, max_len: usize, dist: &mut Dist) -> LzG
 // area c02
 
 pub fn gen(rng: &mut Rng, tier: &str, dist: &mut Dist) -> Vec<String> {
-    let n = if tier == "thorough" { 5000 } else { 520 };
+    let n = if tier == "thorough" { 12000 } else { 1500 };
     let max_len = if tier == "thorough" { 12000 } else { 2500 };
     let mut cmds = Vec::new();
     // the empty input under every check type, with and without (empty) writes and flushes
